@@ -8,5 +8,5 @@ cp /repo/go.sum harness/go.sum
 (cd harness && go build -tags verif -o ../build/bin/bklgo ./cmd/bklgo && go build -o ../build/bin/extract ./cmd/extract && go build -o ../build/bin/gotrans ./cmd/gotrans && go build -o ../build/bin/recorder ./cmd/recorder)
 for c in bkl bkld bkli bklr bklb; do (cd /repo && go build -o /verif/build/bin/$c ./cmd/$c); done
 python3 -c "import sys; sys.path.insert(0, 'run'); import common; common.gen_facts()"
-(cd lean && lake build Bkl bklmodel Generated BklProofs BklProofs.Facts.Formats BklProofs.Facts.Ranges BklProofs.Facts.Safety BklProofs.Facts.Literals BklProofs.Facts.Reads BklProofs.Facts.Dispatch BklProofs.Facts.DispatchFiles BklProofs.Facts.DispatchMerge BklProofs.Facts.DispatchRefs BklProofs.Facts.DispatchOutput BklProofs.Facts.DispatchEval BklProofs.Facts.DispatchEscape BklProofs.Facts.State BklProofs.Facts.StateParser BklProofs.Facts.StateFiles BklProofs.Facts.StateTools BklProofs.Facts.TransValidate BklProofs.Facts.TransFinalize BklProofs.Facts.TransMatch BklProofs.Facts.TransUtil BklProofs.Facts.TransBklr BklProofs.Facts.TransBkli BklProofs.Facts.TransFilter BklProofs.Facts.TransOutput BklProofs.Facts.TransBkld BklProofs.Facts.TransEncode BklProofs.Facts.TransEncode2 BklProofs.Facts.TransMerge BklProofs.Facts.TransRepeat BklProofs.Facts.TransGet BklProofs.Facts.TransProcess2 BklProofs.Facts.SourceC01 BklProofs.Facts.SourceC06 BklProofs.Facts.SourceC07 BklProofs.Facts.SourceC11 BklProofs.Facts.SourceMatch BklProofs.Facts.SourceC10 BklProofs.Facts.SourceC12 BklProofs.Facts.SourceC14 BklProofs.Facts.SourceC15 BklProofs.Facts.SourceC16 BklProofs.Facts.SourceC17 2>&1 | tail -5)
+(cd lean && lake build Bkl bklmodel Generated BklProofs BklProofs.Facts.Formats BklProofs.Facts.Ranges BklProofs.Facts.Safety BklProofs.Facts.Literals BklProofs.Facts.Reads BklProofs.Facts.Dispatch BklProofs.Facts.DispatchFiles BklProofs.Facts.DispatchMerge BklProofs.Facts.DispatchRefs BklProofs.Facts.DispatchOutput BklProofs.Facts.DispatchEval BklProofs.Facts.DispatchEscape BklProofs.Facts.State BklProofs.Facts.StateParser BklProofs.Facts.StateFiles BklProofs.Facts.StateTools BklProofs.Facts.TransValidate BklProofs.Facts.TransFinalize BklProofs.Facts.TransMatch BklProofs.Facts.TransUtil BklProofs.Facts.TransBklr BklProofs.Facts.TransBkli BklProofs.Facts.TransFilter BklProofs.Facts.TransOutput BklProofs.Facts.TransBkld BklProofs.Facts.TransEncode BklProofs.Facts.TransEncode2 BklProofs.Facts.TransMerge BklProofs.Facts.TransRepeat BklProofs.Facts.TransGet BklProofs.Facts.TransProcess2 BklProofs.Facts.SourceC01 BklProofs.Facts.SourceC06 BklProofs.Facts.SourceC07 BklProofs.Facts.SourceC11 BklProofs.Facts.SourceMatch BklProofs.Facts.SourceC10 BklProofs.Facts.SourceC12 BklProofs.Facts.SourceC14 BklProofs.Facts.SourceC15 BklProofs.Facts.SourceC16 BklProofs.Facts.SourceC17 BklProofs.Facts.SourceC13 2>&1 | tail -5)
 echo setup done
